@@ -138,7 +138,7 @@ Definition unload (ret_transfer : bool) (s : state) : unload_res :=
           | Some es' =>
               let hr := clear_slot (sc_static sc) (clear_slot (f_args f) (clear_slot (f_local f) (s_heap s, s_refs s))) in
               (* an exception leaves the script: what is still on its own evaluation stack is un-counted (Stack.Clear; the
-                 repair F57 - vm.go as found just drops the stack and keeps the counts) *)
+                 repair F58 - vm.go as found just drops the stack and keeps the counts) *)
               let hr := if negb ret_transfer && negb (sc_shared sc) then clear_slot (Some (sc_es sc)) hr else hr in
               UNext (mkState f' (mkScript (sc_prog sc') (sc_sid sc') (sc_static sc') es' (sc_shared sc'))
                              fs' outer' (fst hr) (snd hr) (s_exc s) (s_gas s) (s_limit s) (s_base s))
